@@ -409,6 +409,11 @@ func genIndex(t *rapid.T) indexCase {
 	for i := 0; i < ne; i++ {
 		e := entry{MH: rapid.IntRange(0, nm-1).Draw(t, "emh"), Provider: rapid.IntRange(0, 7).Draw(t, "eprov"),
 			CtxID: gen.Bytes(0, 64).Draw(t, "ectx"), Metadata: gen.Bytes(1, 200).Draw(t, "emd")}
+		if rapid.IntRange(0, 4).Draw(t, "longctx") == 0 {
+			// the longest context IDs (with the 38 / 39-byte identity-hashed peer IDs: the longest value keys)
+			n := rapid.IntRange(60, 64).Draw(t, "ctxlen")
+			e.CtxID = bytes.Repeat([]byte{byte(0x40 + i)}, n)
+		}
 		if rapid.IntRange(0, 5).Draw(t, "bigmd") == 0 {
 			// up to the largest metadata an advertisement may carry
 			e.Metadata = gen.BoundaryBytes(512, 840, 1000, 1023).Draw(t, "emdbig")
